@@ -133,4 +133,16 @@ CONF = {
                   "background interface scan and spam loop suppressed; the spam loop's effect (gratuitous of a queued advertisement) is delivered by the harness",
                   "race pass: 200 free-running iterations of the concurrent bodies compiled with -race (the only non-enumerative component)"],
  },
+ "C20": {
+  "level": "model_checking",
+  "rule": "stateless depth-first exploration of thread schedules with preemption bounding (0,1,2 quick; 3 thorough) of concurrently delivered handler calls through the real k8s.Listener wrappers: controller half (service worker, pool worker, pool-counter fetcher; 4 scenarios) and speaker half (service, config and node workers, layer-2 status and BGP peers fetchers; 4 scenarios); oracle: final state == serial execution in lock-acquisition order; plus free-running -race passes of the same bodies and a syntactic wiring check of k8s.New",
+  "parts": [{"name": "controller", "pkg": "controller", "test": "TestVerif_C20ctl", "shards": {"quick": 16, "thorough": 16}, "budget_s": {"quick": 90, "thorough": 1200}, "gomaxprocs": 1,
+             "rewrites": {"sync": ["internal/k8s/listener.go", "internal/allocator/allocator.go"], "map": MAP_ALLOC}},
+            {"name": "speaker", "pkg": "speaker", "test": "TestVerif_C20spk", "shards": {"quick": 16, "thorough": 16}, "budget_s": {"quick": 90, "thorough": 1200}, "gomaxprocs": 1,
+             "rewrites": {"sync": ["internal/k8s/listener.go", "speaker/bgp_controller.go", "internal/layer2/announcer.go"], "go": ["internal/layer2/announcer.go"], "map": MAP_SPK_FULL}},
+            {"name": "controller-race", "pkg": "controller", "test": "TestVerif_C20ctlRace", "shards": 1, "race": True, "rewrites": {"map": MAP_ALLOC}},
+            {"name": "speaker-race", "pkg": "speaker", "test": "TestVerif_C20spkRace", "shards": 1, "race": True, "rewrites": {"go": ["internal/layer2/announcer.go"], "map": MAP_SPK_FULL}}],
+  "assumptions": ["k8s.New needs a live API server: its wiring (reconcilers get the locking wrappers, one worker each) is checked syntactically",
+                  "callbacks (countersChanged, layer2 status change, ads changed) are harness functions that yield", "race passes: 200 free-running iterations per scenario under -race (not an enumeration)"],
+ },
 }
